@@ -92,8 +92,11 @@ pub fn num(v: f64) -> String {
 }
 
 fn arr_text(a: &[f64]) -> String {
-    // integers are written without a fractional part: the array is then an integer array
-    format!("[{}]", a.iter().map(|v| num(*v)).collect::<Vec<_>>().join(", "))
+    // integers are written without a fractional part: the array is then an integer array. In an
+    // array that holds a fraction, whole elements are written with a decimal point (`[2.5, 4.0]`):
+    // `[2.5, 4]` would mix integers and numbers, which the type checker types as `Any[]`
+    let fractional = a.iter().any(|v| v.fract() != 0.0);
+    format!("[{}]", a.iter().map(|v| if fractional && v.fract() == 0.0 { format!("{}.0", num(*v)) } else { num(*v) }).collect::<Vec<_>>().join(", "))
 }
 
 /// one linear term list `c0 * v0 + c1 * v1 ...` (or `0` when empty)
@@ -524,6 +527,8 @@ fn arr(ints_only: bool) -> BoxedStrategy<Vec<f64>> {
         prop_oneof![
             4 => ints,
             2 => proptest::collection::vec((0i32..=18).prop_map(|v| v as f64 / 2.0 + 0.25), 1..=4),
+            // halves: fractions next to whole values in one number array
+            1 => proptest::collection::vec((0i32..=18).prop_map(|v| v as f64 / 2.0), 2..=4),
         ]
         .boxed()
     }
